@@ -110,6 +110,7 @@ package runner
 //@   requires n_load == 0 && n_eval == 0
 //@   ensures  nopermit: held == 0
 //@   ensures  final: t.status >= 2
+//@   ensures  wakes-the-waiters: n_wake >= old(n_wake) + 1
 //@   ensures  once-load: n_load == old(n_load) + 1
 //@   ensures  once-eval: n_eval <= old(n_eval) + 1
 //@   modifies heap, n_load, n_eval
